@@ -11,11 +11,13 @@ import (
 )
 
 // C17 — guard facts read from pkg/db/meta/compat_channel_migration_helpers.go:
-// do the two request validators compare the task guard's channel with the
-// runtime guard's channel?  (The executable model takes the answer as a
+// do the two request validators compare the task guard's channel (ChannelID AND
+// ChannelType) with the runtime guard's channel?  (The executable model takes the answer as a
 // parameter, so the same model follows the code before and after that check
 // is added; the theorems say what holds in either case.)
 func init() { register("C17", extractC17) }
+
+var c17TypeCmp = regexp.MustCompile(`(?i)guard\.ChannelType\s*!=\s*(req\.)?runtimeGuard\.ChannelType|runtimeGuard\.ChannelType\s*!=\s*(req\.)?guard\.ChannelType`)
 
 var c17ChanCmp = regexp.MustCompile(`(?i)guard\.ChannelID\s*!=\s*(req\.)?runtimeGuard\.ChannelID|runtimeGuard\.ChannelID\s*!=\s*(req\.)?guard\.ChannelID`)
 
@@ -40,7 +42,8 @@ func c17FuncText(repo, rel, name string) (string, error) {
 			continue
 		}
 		cond := string(src[fset.Position(ifs.Cond.Pos()).Offset:fset.Position(ifs.Cond.End()).Offset])
-		if !c17ChanCmp.MatchString(cond) {
+		// a channel is (ChannelID, ChannelType): BOTH comparisons must be in the condition
+		if !c17ChanCmp.MatchString(cond) || !c17TypeCmp.MatchString(cond) || !strings.Contains(cond, "||") {
 			continue
 		}
 		if len(ifs.Body.List) == 1 {
@@ -71,7 +74,7 @@ func extractC17(repo string) (string, error) {
 	}
 	var sb strings.Builder
 	sb.WriteString("namespace WK.Gen.C17\n\n")
-	sb.WriteString("/-- validateChannelMigrationTaskRuntimeTransition returns ErrInvalidArgument when the task guard and the\n    runtime guard name different channels -/\n")
+	sb.WriteString("/-- validateChannelMigrationTaskRuntimeTransition returns ErrInvalidArgument when the task guard and the\n    runtime guard name different channels (ChannelID or ChannelType differ) -/\n")
 	fmt.Fprintf(&sb, "def transitionChecksGuardChannel : Bool := %s\n\n", a)
 	sb.WriteString("/-- validateChannelMigrationFenceRequest does the same -/\n")
 	fmt.Fprintf(&sb, "def fenceRequestChecksGuardChannel : Bool := %s\n\n", b)
